@@ -47,11 +47,6 @@ func genC12(t *rapid.T) c12Case {
 	perTerm := map[int]int{}
 	for i := 0; i < nc; i++ {
 		k := call{ID: i + 1, Terminal: rapid.IntRange(0, n-1).Draw(t, "target"), Cmd: rapid.SampledFrom(commandIDs).Draw(t, "cmd")}
-		if perTerm[k.Terminal] >= 3 {
-			// the session manager hands commands to a connection through a 3-slot channel; more than that
-			// outstanding at the very same instant is C13's territory (fault/stress), not the matching property
-			k.Terminal = (k.Terminal + 1) % n
-		}
 		perTerm[k.Terminal]++
 		k.Behaviour = rapid.SampledFrom([]string{"answer", "answer", "delay", "dup", "wrong_serial", "ignore", "hold", "hold", "late"}).Draw(t, "behaviour")
 		switch k.Behaviour {
@@ -69,6 +64,12 @@ func genC12(t *rapid.T) c12Case {
 			k.TimeoutMs = rapid.SampledFrom([]int{40, 100, 250}).Draw(t, "timeout")
 		}
 		c.Calls = append(c.Calls, k)
+	}
+	if nc >= 5 && rapid.IntRange(0, 3).Draw(t, "timeout_burst") == 0 {
+		// a burst: every command goes to terminal 0, is ignored and times out at the same instant
+		for i := range c.Calls {
+			c.Calls[i].Terminal, c.Calls[i].Behaviour, c.Calls[i].TimeoutMs, c.Calls[i].DelayMs = 0, "ignore", 120, 0
+		}
 	}
 	return c
 }
@@ -296,6 +297,11 @@ func checkC12(c c12Case, _ *kit.Collector) kit.Result {
 	}
 	if concurrent {
 		res.Labels = append(res.Labels, "concurrent_calls_one_terminal")
+	}
+	for _, n := range perTerm {
+		if n >= 5 {
+			res.Labels = append(res.Labels, "calls>=5_on_one_terminal")
+		}
 	}
 	if outOfOrder {
 		res.Labels = append(res.Labels, "responses_out_of_order")
